@@ -6,6 +6,7 @@ import PqlModel.Props.C02Statement
 import PqlModel.Props.C02SemanticsCex
 import PqlModel.Props.C05ParseStatement
 import PqlModel.Props.C03Full
+import PqlModel.Props.C02EndToEnd
 #print axioms Pql.C02.C02_canAttachSort_table
 #print axioms Pql.C02.C02_top_eq_sort_take
 #print axioms Pql.C02.C02_spec_top
@@ -41,3 +42,10 @@ import PqlModel.Props.C03Full
 #print axioms Pql.C02.Cex.C02_project_sort_differs
 #print axioms Pql.C02.Cex.C02_summarize_sort_differs
 #print axioms Pql.C02.Cex.C02_duplicate_names_differ
+#print axioms Pql.E2E.C02_end_to_end_tree
+#print axioms Pql.E2E.C02_end_to_end_tree_detail
+#print axioms Pql.E2E.C02_end_to_end_tree_raw
+#print axioms Pql.E2E.C02_end_to_end_source
+#print axioms Pql.E2E.C02_end_to_end_program_partial
+#print axioms Pql.E2E.evalStatement_of_statementEq
+#print axioms Pql.E2E.evalS_not_invariant_under_normS
